@@ -448,8 +448,8 @@ def _exhaustive_defaults(tier):
     yield dict(_default_case("Diffuse"), ext=".ecsv", optical=False, kinds=["write"])
     yield dict(_default_case("Target"), aim=None, ra=0.0, dec=1.55, lat=1.55)
     # a mountain-top instrument and bright showers: many decays above the instrument, many events with signal
-    yield dict(_default_case("Diffuse"), det=1.0, n=250, spectrum={"id": "monospectrum", "log_nu_energy": 10.0}, radio=False, kinds=["write"])
-    yield dict(_default_case("Diffuse"), det=5.0, n=250, spectrum={"id": "monospectrum", "log_nu_energy": 10.5}, kinds=["write"])
+    yield dict(_default_case("Diffuse"), det=1.0, n=250, spectrum={"id": "monospectrum", "log_nu_energy": 10.0}, radio=False, kinds=[])
+    yield dict(_default_case("Diffuse"), det=5.0, n=250, spectrum={"id": "monospectrum", "log_nu_energy": 10.5}, kinds=[])
 
 
 SUBCHECKS = [
